@@ -23,10 +23,36 @@ var c09Alpha = []byte{0x00, 0x01, 0x08, 0x09, 0x0a, 0x0d, 0x1f, 0x20, 0x22, 0x2f
 	0x80, 0x8f, 0x90, 0x9f, 0xa0, 0xbf, 0xc0, 0xc1, 0xc2, 0xdf, 0xe0, 0xe1, 0xec, 0xed, 0xee, 0xef,
 	0xf0, 0xf1, 0xf3, 0xf4, 0xf5, 0xff, 0xbd, 0xbe, 0x30, 0x39, 0x41, 0x66, 0x75, 0x6e, 0x5b, 0x5d, 0x1b, 0x7b}
 
+// escapeImpl: the escaped form of s as a string value (WriteLogString). The same string used as a field KEY of the JSON
+// encoder, of the text encoder and as a JSON string VALUE must come out identically; if one of those paths differs the result
+// is prefixed with a marker (which no model output ever contains), so every stream below also covers those paths.
 func escapeImpl(s string) []byte {
 	var buf bytes.Buffer
 	log.WriteLogString(&buf, s)
-	return buf.Bytes()
+	v := buf.Bytes()
+	var kb bytes.Buffer
+	je := log.NewJSONEncoder(&kb)
+	je.AppendEncoderBegin()
+	je.AppendKey(s)
+	if k := kb.Bytes(); len(k) < 4 || !bytes.Equal(k[2:len(k)-2], v) {
+		return append([]byte("JSON-KEY-PATH-DIFFERS:"), k...)
+	}
+	kb.Reset()
+	je = log.NewJSONEncoder(&kb)
+	je.AppendEncoderBegin()
+	je.AppendKey("k")
+	je.AppendString(s)
+	if k := kb.Bytes(); len(k) < 7 || !bytes.Equal(k[6:len(k)-1], v) {
+		return append([]byte("JSON-VALUE-PATH-DIFFERS:"), k...)
+	}
+	kb.Reset()
+	te := log.NewTextEncoder(&kb, "||")
+	te.AppendEncoderBegin()
+	te.AppendKey(s)
+	if k := kb.Bytes(); len(k) < 1 || !bytes.Equal(k[:len(k)-1], v) {
+		return append([]byte("TEXT-KEY-PATH-DIFFERS:"), k...)
+	}
+	return v
 }
 
 // enumerate all strings: first byte fixed, remaining len-1 bytes over alphabet (full=all 256 values)
